@@ -1,4 +1,6 @@
 import HqModel.Lemmas.SchedF1
+import HqModel.Lemmas.SchedF2
+import HqModel.Lemmas.SchedSpec
 import HqModel.Lemmas.SchedBox
 import HqModel.Lemmas.SchedPrio
 /-!
@@ -13,13 +15,20 @@ can make of a solution, `PriorityRespecting` = the statement of C15 including it
   content, count and fuel, `take_tasks` pops the first `count` tasks of the queue, and a queue kept by `readyAdd`
   lists its tasks by descending priority, then ascending id.
 * `prio_embedding_mono` — full strength: `Priority::from_user_priority` is strictly monotone i32 → u64.
-* `c15_partial_F` — PARTIAL: `PriorityRespecting` for every instance of the fragment F, every optimal solution of
-  `milp inst` and every placement the mapping can produce from it. What is missing for the full property: the
-  instances outside F — and there the statement is FALSE for the code as it is (`c15_counterexample*`): the
-  encoding of priorities by cuts/gaps/blockers is an approximation. Known finding F7.
-* `c15_counterexample`, `c15_counterexample_two_workers` — concrete instances outside F with an optimal solution
-  (over all integer points) whose placement is not `PriorityRespecting`; both are the solutions the real
-  scheduler returns for these instances (corpus/sched/f7_*.trace).
+* `c15_partial_F` — PARTIAL: `PriorityRespecting` for every instance of the fragment F = F1 ∪ F2, every optimal
+  solution of `milp inst` and every placement the mapping can produce from it.
+  F1 = at most one request class has ready tasks (any cluster, idle or busy; follows from the queue order alone).
+  F2 = one worker (idle or busy), at most two request classes with ready tasks, default class weights; proved by an
+  exchange argument on the cut / gap / blocker rows, for batches that satisfy the closed-form specification
+  `BatchesSpec` (hypothesis; decidable, evaluated by the driver on `batches inst` for every generated instance —
+  `out spec`; not yet proved for the loop of `batches` in general).
+  What is missing for the full property: the instances outside F — and there the statement is FALSE for the code
+  as it is (`c15_counterexample*`): the encoding of priorities by cuts/gaps/blockers is an approximation. Known
+  finding F7.
+* `c15_counterexample` (one worker, three classes), `c15_counterexample_two_workers` (two unequal workers, two
+  classes), `c15_counterexample_weights` (one worker, two classes, unequal class weights — found while proving F2) —
+  concrete instances outside F with an optimal solution (over all integer points) whose placement is not
+  `PriorityRespecting`; all three are the solutions the real scheduler returns (corpus/sched/f7_*.trace).
 -/
 namespace HqModel.C15
 open HqModel.Sched
@@ -70,15 +79,20 @@ theorem prio_embedding_mono (x y : BitVec 32) :
   rw [decide_eq_decide]
   constructor <;> intro h <;> omega
 
-/-- PARTIAL (fragment F): for every well-formed instance with at most one request class that has ready tasks
-(any cluster, idle or busy, any priorities), every optimal solution of the modelled MILP and every placement
-`create_task_mapping` can produce from it, the placement respects the priorities. (For this fragment optimality
-is not even needed: the statement follows from the queue order.) Missing: all instances with two or more ready
-classes; see `c15_counterexample*` for why the full statement cannot be proved for the present encoding. -/
-theorem c15_partial_F (inst : Instance) (hwf : inst.WF) (hF : inst.inF1 = true) (x : Assign)
-    (_hopt : Optimal (milp inst) x) (pl : Placement) (hv : ValidPlacement inst x pl) :
-    PriorityRespecting inst pl :=
-  priorityRespecting_of_inF1 hwf hF hv
+/-- PARTIAL (fragment F = F1 ∪ F2): for every well-formed instance with
+* at most one request class that has ready tasks (any cluster, idle or busy, any priorities), or
+* one worker (idle or busy), at most two request classes with ready tasks and default class weights, whose batches
+  satisfy the closed-form specification `BatchesSpec` (checked by the driver per generated instance),
+every optimal solution of the modelled MILP and every placement `create_task_mapping` can produce from it
+respects the priorities. Missing: `BatchesSpec (batches inst)` as a theorem about the loop; all instances outside
+F — see `c15_counterexample*` for why the full statement cannot be proved for the present encoding. -/
+theorem c15_partial_F (inst : Instance) (hwf : inst.WF)
+    (hF : inst.inF1 = true ∨ (inst.inF2 = true ∧ BatchesSpec inst (batches inst))) (x : Sched.Assign)
+    (hopt : Optimal (milp inst) x) (pl : Placement) (hv : ValidPlacement inst x pl) :
+    PriorityRespecting inst pl := by
+  rcases hF with hF | ⟨hF, hspec⟩
+  · exact priorityRespecting_of_inF1 hwf hF hv
+  · exact priorityRespecting_of_inF2 hwf hF hspec hopt hv
 
 /-! ### the property fails outside F (known finding F7) -/
 
@@ -180,6 +194,53 @@ theorem c15_counterexample_two_workers :
      (by decide +kernel),
    witness2_valid, by decide +kernel⟩
 
+/-- one worker with 5 cpus, two request classes: 3 cpus with weight 1 and 1 cpu with weight 10; tasks
+(priority, cpus) = (2,1) (1,3) (0,1) (0,1) (0,1) (0,1) -/
+def witness3 : Instance where
+  workers := [{ id := 1, total := 50000, free := 50000 }]
+  classes := [{ need := 30000 }, { need := 10000, weight := 100000 }]
+  queues := [[(1, [(1, 2)])], [(2, [(1, 1)]), (0, [(1, 3), (1, 4), (1, 5), (1, 6)])]]
+
+def witness3Sol : Sched.Assign := assignOf [(.P 1 0, 0), (.P 1 1, 3), (.B 0 1, 1), (.B 1 1, 1)]
+
+/-- the priority-1 3-cpu task 1.2 stays ready although it fits beside the priority-2 task 1.1 -/
+def witness3Placement : Placement := [((1, 1), 1), ((1, 3), 1), ((1, 4), 1)]
+
+theorem witness3_wf : witness3.WF where
+  workersSorted := by decide
+  needPos := by decide
+  weightPos := by decide
+  sameLen := by decide
+  queuesSorted := by decide
+  levelsNonempty := by decide
+  idsNodup := by decide
+  freeLeTotal := by decide
+
+theorem witness3_valid : ValidPlacement witness3 witness3Sol witness3Placement where
+  nodup := by decide
+  workers := by decide
+  taken := by
+    intro c hc
+    have hc' : c = 0 ∨ c = 1 := by simp [witness3] at hc; omega
+    rcases hc' with rfl | rfl
+    · exact ⟨[], by decide +kernel, by decide +kernel⟩
+    · exact ⟨[(1, 1), (1, 3), (1, 4)], by decide +kernel, by decide +kernel⟩
+  ready := by decide
+  counts := by decide +kernel
+
+/-- a third witness, found while proving F2: one worker and two classes, but unequal class weights — the heavier
+low-priority class outweighs the waiting higher-priority task. The default-weight condition of F2 is necessary. -/
+theorem c15_counterexample_weights :
+    witness3.WF ∧ witness3.inF1 = false ∧ witness3.inF2 = false ∧
+    (witness3.workers.length = 1 ∧ witness3.readyClasses.length = 2) ∧
+    BatchesSpec witness3 (batches witness3) ∧
+    Optimal (milp witness3) witness3Sol ∧ ValidPlacement witness3 witness3Sol witness3Placement ∧
+    ¬ PriorityRespecting witness3 witness3Placement :=
+  ⟨witness3_wf, by decide, by decide, by decide, batchesSpec_of_B (by decide +kernel),
+   optimal_of_box (ub := boxBound witness3) (by decide +kernel) (by decide +kernel) (by decide +kernel)
+     (by decide +kernel),
+   witness3_valid, by decide +kernel⟩
+
 /-! ### the hypotheses are satisfiable -/
 
 /-- a sorted queue with two levels: taking two tasks pops the priority-5 task and the smaller id of priority 1 -/
@@ -189,7 +250,7 @@ example : takeFromQueue 5 [(5, [(1, 9)]), (1, [(1, 2), (1, 4)])] 2 [] = .ok ([(1
 example : QueueSorted [(5, [(1, 9)]), (1, [(1, 2), (1, 4)])] :=
   ⟨by decide, by decide, by decide⟩
 
-/-- a non-trivial instance inside F (two unequal workers, one busy; one class with three priority levels) with an
+/-- a non-trivial instance inside F1 (two unequal workers, one busy; one class with three priority levels) with an
 optimal solution and a valid placement -/
 def inF : Instance where
   workers := [{ id := 1, total := 30000, free := 10000, assigned := [0] }, { id := 2, total := 20000, free := 20000 }]
@@ -208,6 +269,31 @@ example : inF.WF ∧ inF.inF1 = true ∧
       rcases hc' with rfl | rfl
       · exact ⟨[], by decide +kernel, by decide +kernel⟩
       · exact ⟨[(1, 1), (1, 2), (2, 0)], by decide +kernel, by decide +kernel⟩,
+    by decide, by decide +kernel⟩⟩
+
+/-- a non-trivial instance inside F2 (one busy worker: 7 cpus, a 2-cpu task running; classes of 3 cpus and 1 cpu
+with interleaved priorities, so cuts, a reached limit and blocker variables exist) whose batches satisfy `BatchesSpec`, with
+an optimal solution and a valid placement -/
+def inF2ex : Instance where
+  workers := [{ id := 1, total := 70000, free := 50000, assigned := [2] }]
+  classes := [{ need := 30000 }, { need := 10000 }, { need := 20000 }]
+  queues := [[(5, [(1, 1)]), (1, [(1, 2)])], [(3, [(2, 1)]), (0, [(2, 2), (2, 3)])], []]
+
+example : inF2ex.WF ∧ inF2ex.inF1 = false ∧ inF2ex.inF2 = true ∧ BatchesSpec inF2ex (batches inF2ex) ∧
+    Optimal (milp inF2ex) (assignOf [(.P 1 0, 1), (.P 1 1, 1), (.B 0 1, 0), (.B 1 1, 0)]) ∧
+    ValidPlacement inF2ex (assignOf [(.P 1 0, 1), (.P 1 1, 1), (.B 0 1, 0), (.B 1 1, 0)])
+      [((1, 1), 1), ((2, 1), 1)] :=
+  ⟨⟨by decide, by decide, by decide, by decide, by decide, by decide, by decide, by decide⟩, by decide, by decide,
+   batchesSpec_of_B (by decide +kernel),
+   optimal_of_box (ub := boxBound inF2ex) (by decide +kernel) (by decide +kernel) (by decide +kernel) (by decide +kernel),
+   ⟨by decide, by decide,
+    by
+      intro c hc
+      have hc' : c = 0 ∨ c = 1 ∨ c = 2 := by simp [inF2ex] at hc; omega
+      rcases hc' with rfl | rfl | rfl
+      · exact ⟨[(1, 1)], by decide +kernel, by decide +kernel⟩
+      · exact ⟨[(2, 1)], by decide +kernel, by decide +kernel⟩
+      · exact ⟨[], by decide +kernel, by decide +kernel⟩,
     by decide, by decide +kernel⟩⟩
 
 end HqModel.C15
